@@ -310,6 +310,12 @@ class _Rename(ast.NodeTransformer):
             return ast.copy_location(ast.Name(id=self.mapping[node.id], ctx=node.ctx), node)
         return node
 
+    def visit_FunctionDef(self, node):
+        if node.name in self.mapping:
+            node.name = self.mapping[node.name]
+        self.generic_visit(node)
+        return node
+
     def visit_arg(self, node):
         if node.arg in self.mapping:
             node.arg = self.mapping[node.arg]
